@@ -1,5 +1,6 @@
 """Shared harness for the four process models (C01, C03, C05, C08, C11, C18)."""
 import inspect
+import sys
 
 import numpy
 import z3
@@ -12,7 +13,7 @@ from pyvaporation.pervaporation import pervaporation as pvmod
 from pyvaporation.pervaporation.pervaporation import Pervaporation
 from pyvaporation import utils as pvutils
 
-from .symx import real, lift, SReal, UF, rv, EXP, LOG
+from .symx import real, lift, SReal, UF, rv, EXP, LOG, named
 from . import build
 from .core import Patches
 
@@ -95,8 +96,14 @@ class ProcSetup:
         return d
 
     # ---------------------------------------------------------------------------------------------
-    def install(self, pt, validator="assume", flux="stub", heats=True, fit="stub", clamp="assume"):
+    def install(self, pt, validator="assume", flux="stub", heats=True, fit="stub", clamp="assume", name_state=False):
         me = self
+
+        def _name(v, prefix):
+            if isinstance(v, SReal) and not z3.is_const(v.t) and not build.is_num(v.t):
+                return named(v, prefix)
+            return v
+
         if heats:
             build.stub_thermo(pt, self.mix, gamma=False, psat=False, heats=True)
         if validator == "assume":
@@ -112,6 +119,31 @@ class ProcSetup:
                 k = len(me.calls)
                 comp = args["composition"]
                 P1, P2 = args["first_component_permeance"], args["second_component_permeance"]
+                if name_state:
+                    # give the per-step state fresh names (defining equalities join the path condition): keeps every
+                    # later term small.  The lists are the caller's own (looked up by name; absent names: no naming)
+                    comp.p = _name(comp.p, "p%d_" % k)
+                    for P in (P1, P2):
+                        if P is not None:
+                            P.value = _name(P.value, "P%d_" % k)
+                    fr = sys._getframe(1)
+                    for _ in range(4):
+                        if fr is None:
+                            break
+                        loc = fr.f_locals
+                        if isinstance(loc.get("feed_mass"), list):
+                            for lname in ("feed_mass", "feed_temperature"):
+                                lst = loc.get(lname)
+                                if isinstance(lst, list) and lst:
+                                    lst[-1] = _name(lst[-1], lname[5] + "%d_" % k)
+                            break
+                        fr = fr.f_back
+                    if isinstance(args["feed_temperature"], SReal):
+                        # the argument was read before the list element was renamed
+                        loc = fr.f_locals if fr is not None else {}
+                        ft = loc.get("feed_temperature")
+                        if isinstance(ft, list) and ft:
+                            args["feed_temperature"] = ft[-1]
                 name = "%s_%s_%s" % (args["calculation_type"], comp.type,
                                      "vac" if args["permeate_temperature"] is None and args["permeate_pressure"] is None
                                      else "ptemp" if args["permeate_pressure"] is None else "ppres" if args["permeate_temperature"] is None else "both")
